@@ -11,5 +11,11 @@ if 'SEEDED_TABLE_PLACEHOLDER' in s:
     s = s.replace('SEEDED_TABLE_PLACEHOLDER', B + '\n' + E)
 a, b = s.index(B) + len(B), s.index(E)
 s = s[:a] + '\n' + table + '\n' + s[b:]
+parts = subprocess.check_output([os.path.join(HERE, 'tools', 'parts_table.py')], stderr=subprocess.DEVNULL).decode()
+parts = '\n'.join(l for l in parts.splitlines() if not l.startswith('WARNING'))
+B2, E2 = '<!-- parts-table:begin -->', '<!-- parts-table:end -->'
+if B2 in s:
+    a, b = s.index(B2) + len(B2), s.index(E2)
+    s = s[:a] + '\n' + parts + '\n' + s[b:]
 open(p, 'w').write(s)
-print('table updated')
+print('tables updated')
